@@ -49,6 +49,10 @@ func checkC07(w *World, c *Check, tier string) {
 	c.floor("C07.table", 200)
 	c.floor("C07.partition", 5)
 	c.floor("C07.family", 50)
+	c.floor("C07.accessor", 84)
+	c.floor("C07.fresh", 15)
+	checkRegistryFresh(w, c, "C07.fresh")
+	checkAccessors(w, c, "C07.accessor", []string{"GetType", "GetID", "GetLink", "IsObject", "IsLink", "IsCollection"})
 
 	// ---- C07.partition ----
 	types_, okT := v.lists["Types"]
